@@ -5,7 +5,7 @@
   Only property theorems live here; generic comparator lemmas are in ILV.Lemmas.Order.
 -/
 import ILV.Lemmas.Order
-import ILV.Lemmas.Consolidate
+import ILV.Lemmas.ConsolidateC31
 namespace ILV.Props.C31
 open ILV
 
